@@ -626,4 +626,67 @@ def no_stale_lazy_cache(repo: Repo) -> RuleRun:
 
 no_stale_lazy_cache.rule_id = "C03.NO-STALE-CACHE"
 
-RULES = [registry_agreement, closure, invert_complete, validation_siblings, dimensions, bracket_siblings, unit_ratio_tests, copy_well_posed, no_stale_lazy_cache]
+def reject_not_repair(repo: Repo) -> RuleRun:
+    """'... and unrealisable sets are rejected': the grading relations are closed formulas whose logarithms leave their domain
+    exactly when the requested set cannot be realised (a contracting progression that never fills the edge gives log of a
+    non-positive number -> NaN -> int() raises). Clamping such an argument (max(x, eps), clip, abs) turns the rejection into a
+    made-up count. Every log / sqrt argument in grading.relations is followed back through the local definitions: no clamp on the way."""
+    r = RuleRun(PROP, "C03.REJECT-NOT-REPAIR", floor=5, what="no logarithm / root argument in grading.relations is clamped into its domain (max, min, clip, abs): out-of-domain means the set is unrealisable and must surface as an error, not as a repaired number")
+    mod = repo.module("grading.relations")
+    CLAMPS = {"max", "min", "clip", "abs", "fabs", "maximum", "minimum", "nan_to_num", "absolute"}
+    n = 0
+    for fn in sorted(repo.all_functions(), key=lambda f: f.qualname):
+        if fn.module is not mod:
+            continue
+        defs = {}
+        for st in ast.walk(fn.node):
+            if isinstance(st, ast.Assign) and len(st.targets) == 1 and isinstance(st.targets[0], ast.Name):
+                defs.setdefault(st.targets[0].id, []).append(st.value)
+
+        def clamp_in(e: ast.expr, depth: int = 0):
+            for x in ast.walk(e):
+                if isinstance(x, ast.Call) and (attr_chain(x.func) or "").split(".")[-1] in CLAMPS:
+                    return x
+                if isinstance(x, ast.Name) and depth < 3:
+                    for d in defs.get(x.id, []):
+                        hit = clamp_in(d, depth + 1)
+                        if hit is not None:
+                            return hit
+            return None
+
+        k = 0
+        for c in ast.walk(fn.node):
+            if isinstance(c, ast.Call) and (attr_chain(c.func) or "").split(".")[-1] in ("log", "log10", "log2", "sqrt", "log1p") and c.args:
+                n += 1
+                hit = clamp_in(c.args[0])
+                key = f"{'log' if 'log' in (attr_chain(c.func) or '') else 'sqrt'}#{k}"
+                k += 1
+                r.check(
+                    hit is None,
+                    fn,
+                    f"'{ast.unparse(c)[:60]}': argument not clamped",
+                    f"{fn.qualname}: the argument of '{ast.unparse(c)[:70]}' is forced into the domain by '{ast.unparse(hit)[:60] if hit is not None else ''}': where the formula would have produced NaN (the requested set "
+                    "cannot be realised - e.g. a contracting progression whose cells never add up to the edge length) a number is now returned and a grading far from the requested sizes is written instead of an error",
+                    c,
+                    key=key,
+                )
+        # ... nor is the RESULT of a logarithm clamped: a negative cell count (total expansion and cell-to-cell expansion
+        # pointing in opposite directions) is an unrealisable request as well
+        for c in ast.walk(fn.node):
+            if isinstance(c, ast.Call) and (attr_chain(c.func) or "").split(".")[-1] in CLAMPS and c.args:
+                inner = [x for a in c.args for x in ast.walk(a) if isinstance(x, ast.Call) and (attr_chain(x.func) or "").split(".")[-1] in ("log", "log10", "log2", "log1p")]
+                if inner:
+                    r.bad(
+                        fn,
+                        f"{fn.qualname}: '{ast.unparse(c)[:80]}' forces the result of a logarithm into range: a count that comes out negative or NaN because the requested expansions contradict each other "
+                        "is turned into a plausible positive number instead of surfacing as an error",
+                        c,
+                        key=f"clamped-result:{(attr_chain(c.func) or '').split('.')[-1]}",
+                    )
+    r.require(n >= 5, f"only {n} log/sqrt calls found in grading.relations")
+    return r
+
+
+reject_not_repair.rule_id = "C03.REJECT-NOT-REPAIR"
+
+RULES = [registry_agreement, closure, invert_complete, validation_siblings, dimensions, bracket_siblings, unit_ratio_tests, copy_well_posed, no_stale_lazy_cache, reject_not_repair]
